@@ -148,8 +148,12 @@ async fn controller(
         }
         world.fault("shutdown_at");
         let s = server.take().unwrap();
+        let mut drop_wait = None;
         if sd.by_drop {
             world.log(Ev::CloseRequested, NOCONN, 0, 1, 0);
+            // The only way to learn that a dropped server has finished
+            // shutting down is a waiter taken beforehand.
+            drop_wait = Some(s.wait_for_shutdown());
             drop(s);
             world.log(Ev::ServerDropped, NOCONN, 0, 0, 0);
         } else {
@@ -186,6 +190,11 @@ async fn controller(
         // Waiters are judged by the oracle from the log; give them a chance
         // to run before the end.
         finish.notified().await;
+        if let Some(fut) = drop_wait {
+            if let Ok(r) = tokio::time::timeout(ms(LIVENESS_MS * 3), fut).await {
+                world.log(Ev::CloseReturned, NOCONN, 0, u64::from(r.is_err()), 1);
+            }
+        }
         for w in waiters {
             w.abort();
         }
